@@ -26,6 +26,7 @@ RULE = (
     " assembly_string() by the library's assembler (x86-64 ELF) and"
     " the recorded cfiDirectives operands compared."
 )
+RULE += " After each make_const_op request the returned operation is edited in place and the constant requested again: the second answer is a different object pushing the requested value."
 ASSUMPTIONS = [
     "reference codec in vt/dwarfref.py is a faithful transcription of the "
     "DWARF v4 opcode tables",
